@@ -65,9 +65,6 @@ func c02Names(r *rng) []string {
 
 func c02GenLine(r *rng, names []string) string {
 	d := pick(r, names)
-	if cs := c02HostCollisions(); len(cs) > 0 && r.chance(1, 5) {
-		d = pick(r, cs)[r.n(2)]
-	}
 	switch r.n(16) {
 	case 0, 1:
 		return pick(r, []string{"0.0.0.0", "127.0.0.1", "10.0.0.1", "::", "::1", "2001:db8::1", "::ffff:1.2.3.4"}) + " " + d
@@ -137,9 +134,27 @@ func c02Gen(r *rng, n int, w *bufio.Writer) {
 		ids := append([]int{}, c01ListIDs...)
 		shuffle(r, ids)
 		bodies := make([][]string, nLists)
-		var all []string
+		// a few names per scenario, shared by the lines and the requests, so that most requests hit
+		focus := subset(r, names, 4)
+		if cs := c02HostCollisions(); len(cs) > 0 && r.chance(1, 2) {
+			p := pick(r, cs)
+			focus = append(focus, p[0], p[1])
+		}
+		if len(focus) < 2 {
+			focus = append(focus, pick(r, poolDomains), pick(r, poolDomains))
+		}
+		var all, used []string
 		for j := 0; j < nLines; j++ {
-			t := c02GenLine(r, names)
+			pool := focus
+			if r.chance(1, 8) {
+				pool = names
+			}
+			t := c02GenLine(r, pool)
+			for _, nm := range names {
+				if strings.Contains(t, nm) {
+					used = append(used, nm)
+				}
+			}
 			if len(all) > 0 && r.chance(1, 10) {
 				t = pick(r, all)
 			}
@@ -175,7 +190,13 @@ func c02Gen(r *rng, n int, w *bufio.Writer) {
 		rulesW := wlist(items...)
 		for j := 0; j < 6 && i < n; j, i = j+1, i+1 {
 			d := genDNSRequest(r, all)
-			switch r.n(6) {
+			switch r.n(10) {
+			case 4, 5, 6, 7, 8: // a name the scenario is about, or a subdomain of it
+				d.Hostname = pick(r, []string{"", "", "", "www.", "sub."}) + pick(r, focus)
+			case 9:
+				if len(used) > 0 {
+					d.Hostname = pick(r, []string{"", "", "www.", "sub."}) + pick(r, used)
+				}
 			case 0:
 				if len(hostnames) > 0 {
 					d.Hostname = pick(r, hostnames)
